@@ -12,6 +12,15 @@ Definition ct (t : ty) : option ty := Some t.
 (* observed signature: rows and extension requirements (sorted by the harness) *)
 Definition sigobs := (list ty * list ty * list name)%type.
 
+(* An answer to a port-TYPE query (op.port_type, Hugr.port_type): [Ret (Some t)] = the type t is reported;
+   [Ret None] and [Raise _] both mean that NO type is reported (whether "no type" is said by returning None or by
+   raising, and with which exception class, is not part of the property). *)
+Definition ptobs := result (option ty).
+Definition reported (a : ptobs) : option ty := match a with Ret (Some t) => Some t | _ => None end.
+Definition no_type (a : ptobs) : bool := match reported a with None => true | Some _ => false end.
+Definition reports (a : ptobs) (t0 : ty) : bool := match reported a with Some t => ty_eqv t t0 | None => false end.
+Definition same_report (a b : ptobs) : bool := option_eqb ty_eqv (reported a) (reported b).
+
 (* one event of a history on ONE Hugr (harness: raw add_node / delete_node / `hugr[n].op = ..` / in-place
    mutation, or a builder program); after every step of the history the harness reads back the operation of
    every live node and queries it again *)
@@ -19,19 +28,21 @@ Inductive hev :=
 | HPut (n : Z) (o : result opT)          (* index n now holds this operation (new node, op assigned / completed) *)
 | HDel (n : Z)                           (* index n no longer holds a node *)
 (* hugr[n].op.port_kind / .port_type, Hugr.port_kind / Hugr.port_type at port (n, d, z) *)
-| HPort (n : Z) (d : dir) (z : Z) (k : result kind) (t : result ty) (hk : result kind) (ht : result (option ty))
+| HPort (n : Z) (d : dir) (z : Z) (k : result kind) (t : ptobs) (hk : result kind) (ht : ptobs)
 (* hugr[n].op.outer_signature() / .inner_signature() / .num_out *)
 | HSig (n : Z) (outer inner : result sigobs) (nout : result Z).
 
 Inductive case :=
-(* construction of Call (true) / LoadFunc (false): resulting attributes or the exception *)
-| CNew (call : bool) (sig : polyfunc) (inst : option functy) (targs : option (list tyarg))
+(* construction of Call (true) / LoadFunc (false): resulting attributes or the exception.  [inst_ok]: the
+   harness built the instantiation handed to the constructor as an instance of [sig] at [targs] (or handed none
+   for a monomorphic signature) -- only then is "the instantiated signature" of the specification known. *)
+| CNew (call : bool) (sig : polyfunc) (inst : option functy) (targs : option (list tyarg)) (inst_ok : bool)
        (obs : result (polyfunc * functy * nat))
-(* per operation: outer_signature(), inner_signature(), num_out, _function_port_offset(), .instantiation *)
+(* per operation: outer_signature(), inner_signature(), num_out, _function_port_offset(), .instantiation;
+   [o] = [Raise _]: the implementation refused to construct the operation (no operation, nothing to judge) *)
 | CSig (o : result opT) (outer inner : result sigobs) (nout fpo : result Z) (inst : option sigobs)
 (* per port: op.port_kind, op.port_type, Hugr.port_kind, Hugr.port_type on a node holding the op *)
-| CPort (o : result opT) (d : dir) (z : Z) (k : result kind) (t : result ty) (hk : result kind)
-        (ht : result (option ty))
+| CPort (o : result opT) (d : dir) (z : Z) (k : result kind) (t : ptobs) (hk : result kind) (ht : ptobs)
 (* Conditional.nth_inputs(n) / DataflowBlock.nth_outputs(n) *)
 | CNth (o : result opT) (n : Z) (ins outs : result (list ty))
 (* a history of one Hugr with the answers observed after each step *)
@@ -52,14 +63,70 @@ Definition rows_eqv (a b : list ty * list ty) : bool := row_eqv (fst a) (fst b) 
 Definition obs_rows (s : sigobs) : list ty * list ty := (fst (fst s), snd (fst s)).
 Definition f_rows (f : functy) : list ty * list ty := (f_in f, f_out f).
 Definition functy_eqv (a b : functy) : bool := ty_eqv (fty a) (fty b).
+Definition is_call (o : opT) : bool := match o with OCall _ _ _ => true | _ => false end.
+(* AttributeError: the class has no such method / attribute, i.e. the question was not answered at all *)
+Definition no_method {A} (a : result A) : bool := match a with Raise ENoMethod => true | _ => false end.
+Definition not_typed (k : result kind) : bool :=
+  match k with Ret (ValueKind _) | Ret (ConstKind _) | Ret (FunctionKind _) => false | _ => true end.
+Definition sig_eqv (a : result sigobs) (s : list ty * list ty) : bool :=
+  match a with Ret x => rows_eqv (obs_rows x) s | Raise _ => false end.
 
-(* ---- correspondence: the implementation's observation equals the model's output ---- *)
-(* an answer of the node store (None = KeyError: the index holds no node) against an observed answer *)
-Definition opt_eqv {A B} (eqb : A -> B -> bool) (a : result A) (m : option (result B)) : bool :=
-  match m with Some b => res_eqv eqb a b | None => raised a end.
+(* ---- correspondence: the implementation's observation equals the model's output ----
+   The comparison is made on the property's domain, i.e. where the specification (spec/OpsS.v) speaks:
+     * the specification gives the answer (a port it has, the signature of a complete operation, ...): the
+       observation must be the MODEL's answer; where the model's answer is "nothing reported" (a class without the
+       method: Call.outer_signature / Call.port_type; Hugr.port_type = None on the value inputs of a Call) the
+       answer the specification assigns is equally right -- a wrong answer never is;
+     * the specification has no such port: only an answer claiming a typed port / a type contradicts it (which
+       untyped answer is given -- an exception of whatever class, None, OrderKind, CFKind -- is not prescribed);
+     * the specification is silent (incomplete operation, offset below -1, index out of range, an operation the
+       implementation refuses to construct): nothing is compared. *)
+Definition corr_kind (sp : pspec) (k m : result kind) : bool :=
+  match sp with
+  | Port _ => res_eqv kind_eqv k m
+  | NoPort => not_typed k
+  | Unspecified => true
+  end.
+(* [none_ok_in]: on a value INPUT port "no type" is an admissible answer (Hugr.port_type; the property's
+   statement about reported types is about value outputs) *)
+Definition corr_ptype (none_ok_in : bool) (sp : pspec) (d : dir) (a m : ptobs) : bool :=
+  match sp with
+  | Port (ValueKind t0) =>
+      same_report a m || reports a t0 ||
+      match d with In => none_ok_in && no_type a | Out => false end
+  | Port _ | NoPort => no_type a
+  | Unspecified => true
+  end.
+(* [mk], [mt], [mht]: the model's answers (port_kind, op.port_type, Hugr.port_type) *)
+Definition corr_port_ans (o : opT) (d : dir) (z : Z) (k : result kind) (t : ptobs) (hk : result kind) (ht : ptobs)
+           (mk : result kind) (mt : result ty) (mht : ptobs) : bool :=
+  let sp := spec_port_kind ct o d z in
+  corr_kind sp k mk && corr_ptype false sp d t (rmap Some mt) && corr_kind sp hk mk && corr_ptype true sp d ht mht.
+Definition corr_port (o : opT) (d : dir) (z : Z) (k : result kind) (t : ptobs) (hk : result kind) (ht : ptobs)
+  : bool :=
+  corr_port_ans o d z k t hk ht (port_kind vt o d z) (op_port_type o d z) (hugr_port_type vt o d z).
+(* a signature: the model's answer, or (where the model's class has no such method) the specification's *)
+Definition corr_sig (sp : option (list ty * list ty)) (a : result sigobs) (m : result functy) : bool :=
+  match sp with
+  | Some s => res_eqv (fun x f => rows_eqv (obs_rows x) (f_rows f)) a m || sig_eqv a s
+  | None => true
+  end.
+Definition corr_sig3_ans (o : opT) (outer inner : result sigobs) (nout : result Z)
+           (mo mi : result functy) (mn : result Z) : bool :=
+  corr_sig (spec_sig o) outer mo &&
+  corr_sig (spec_inner_sig o) inner mi &&
+  match spec_num_out o with Some _ => res_eqv Z.eqb nout mn | None => true end.
+Definition corr_sig3 (o : opT) (outer inner : result sigobs) (nout : result Z) : bool :=
+  corr_sig3_ans o outer inner nout (outer_sig o) (inner_sig o) (num_out o).
+(* an index that holds no node: no typed kind, no type (a remembered answer would be one) *)
+Definition vacant_port (k : result kind) (t : ptobs) (hk : result kind) (ht : ptobs) : bool :=
+  not_typed k && no_type t && not_typed hk && no_type ht.
+Definition vacant_sig (outer inner : result sigobs) (nout : result Z) : bool :=
+  raised outer && raised inner && raised nout.
 
 (* histories: the model's node store (model/OpsStore.v) is run along the events; every observation is compared
-   with the store's answer at that moment *)
+   with the store's answer at that moment ([None] = KeyError: the index holds no node); the operation the store
+   holds there only tells where the specification speaks *)
 Fixpoint corr_hist (s : store ty) (l : list hev) : bool :=
   match l with
   | [] => true
@@ -67,61 +134,51 @@ Fixpoint corr_hist (s : store ty) (l : list hev) : bool :=
   | HPut n (Raise _) :: r => false          (* the harness only writes operations it could construct *)
   | HDel n :: r => corr_hist (apply s (SDel n)) r
   | HPort n d z k t hk ht :: r =>
-      opt_eqv kind_eqv k (store_port_kind vt s n d z) &&
-      opt_eqv ty_eqv t (store_op_port_type s n d z) &&
-      opt_eqv kind_eqv hk (store_port_kind vt s n d z) &&
-      opt_eqv (option_eqb ty_eqv) ht (store_port_type vt s n d z) &&
-      corr_hist s r
+      match lookup s n, store_port_kind vt s n d z, store_op_port_type s n d z, store_port_type vt s n d z with
+      | Some o, Some mk, Some mt, Some mht => corr_port_ans o d z k t hk ht mk mt mht
+      | None, None, None, None => vacant_port k t hk ht
+      | _, _, _, _ => false
+      end && corr_hist s r
   | HSig n outer inner nout :: r =>
-      opt_eqv (fun x f => rows_eqv (obs_rows x) (f_rows f)) outer (store_outer_sig s n) &&
-      opt_eqv (fun x f => rows_eqv (obs_rows x) (f_rows f)) inner (store_inner_sig s n) &&
-      opt_eqv Z.eqb nout (store_num_out s n) &&
-      corr_hist s r
+      match lookup s n, store_outer_sig s n, store_inner_sig s n, store_num_out s n with
+      | Some o, Some mo, Some mi, Some mn => corr_sig3_ans o outer inner nout mo mi mn
+      | None, None, None, None => vacant_sig outer inner nout
+      | _, _, _, _ => false
+      end && corr_hist s r
   end.
 
 Definition corr (c : case) : bool :=
   match c with
   | CHist l => corr_hist [] l
-  | CNew call sig inst targs obs =>
-      let m := if call then call_new sig inst targs else loadfunc_new sig inst targs in
-      res_eqv (fun (x : polyfunc * functy * nat) (mo : opT) =>
-                 match mo with
-                 | OCall s i ta | OLoadFunc s i ta =>
-                     ty_eqv (pty (fst (fst x))) (pty s) && functy_eqv (snd (fst x)) i && Nat.eqb (snd x) (length ta)
-                 | _ => false
-                 end) obs m
-  (* the model refuses to construct the operation: so did the implementation (the harness then writes
-     exceptions everywhere) *)
-  | CSig (Raise _) outer inner nout fpo inst =>
-      raised outer && raised inner && raised nout && raised fpo && match inst with None => true | _ => false end
-  | CPort (Raise _) _ _ k t hk ht => raised k && raised t && raised hk && raised ht
-  | CNth (Raise _) _ ins outs => raised ins && raised outs
+  | CNew call sig inst targs inst_ok obs =>
+      let m : result opT := if call then call_new sig inst targs else loadfunc_new sig inst targs in
+      match obs, m with
+      | Ret x, Ret (OCall s i _) | Ret x, Ret (OLoadFunc s i _) =>
+          ty_eqv (pty (fst (fst x))) (pty s) && (negb inst_ok || functy_eqv (snd (fst x)) i)
+      | Ret _, Ret _ => false
+      (* a refusal (by the implementation, or by the model of today's constructor): no operation exists, the
+         property promises nothing about which arguments a constructor accepts *)
+      | _, _ => true
+      end
+  | CSig (Raise _) _ _ _ _ _ | CPort (Raise _) _ _ _ _ _ _ | CNth (Raise _) _ _ _ => true
   | CSig (Ret o) outer inner nout fpo inst =>
-      res_eqv (fun s f => rows_eqv (obs_rows s) (f_rows f)) outer (outer_sig o) &&
-      res_eqv (fun s f => rows_eqv (obs_rows s) (f_rows f)) inner (inner_sig o) &&
-      res_eqv Z.eqb nout (num_out o) &&
-      res_eqv Z.eqb fpo (function_port_offset o) &&
+      corr_sig3 o outer inner nout &&
+      (* _function_port_offset is a private helper of Call: absent is fine, a wrong answer is not *)
+      (if is_call o then no_method fpo || res_eqv Z.eqb fpo (function_port_offset o) else true) &&
       match inst, o with
       | Some s, OCall _ i _ | Some s, OLoadFunc _ i _ => rows_eqv (obs_rows s) (f_rows i)
       | None, OCall _ _ _ | None, OLoadFunc _ _ _ => false
-      | Some _, _ => false
-      | None, _ => true
+      | _, _ => true
       end
-  | CPort (Ret o) d z k t hk ht =>
-      res_eqv kind_eqv k (port_kind vt o d z) &&
-      res_eqv ty_eqv t (op_port_type o d z) &&
-      res_eqv kind_eqv hk (port_kind vt o d z) &&
-      res_eqv (option_eqb ty_eqv) ht (hugr_port_type vt o d z)
+  | CPort (Ret o) d z k t hk ht => corr_port o d z k t hk ht
   | CNth (Ret o) n ins outs =>
-      res_eqv row_eqv ins (nth_inputs o n) && res_eqv row_eqv outs (nth_outputs o n)
+      if n <? 0 then true
+      else
+        match spec_case_inputs o (Z.to_nat n) with Some _ => res_eqv row_eqv ins (nth_inputs o n) | None => true end &&
+        match spec_successor_inputs o (Z.to_nat n) with Some _ => res_eqv row_eqv outs (nth_outputs o n) | None => true end
   end.
 
 (* ---- monitor: the specification (spec/OpsS.v) evaluated on the implementation's observations ---- *)
-Definition is_call (o : opT) : bool := match o with OCall _ _ _ => true | _ => false end.
-Definition no_method {A} (a : result A) : bool := match a with Raise ENoMethod => true | _ => false end.
-Definition not_typed (k : result kind) : bool :=
-  match k with Ret (ValueKind _) | Ret (ConstKind _) | Ret (FunctionKind _) => false | _ => true end.
-
 Definition mon_kind (sp : pspec) (k : result kind) : bool :=
   match sp with
   | Port k0 => res_eqv kind_eqv k (Ret k0)
@@ -129,42 +186,42 @@ Definition mon_kind (sp : pspec) (k : result kind) : bool :=
   | Unspecified => true
   end.
 
-Definition mon_port (o : opT) (d : dir) (z : Z) (k : result kind) (t : result ty) (hk : result kind)
-           (ht : result (option ty)) : bool :=
+Definition mon_port (o : opT) (d : dir) (z : Z) (k : result kind) (t : ptobs) (hk : result kind)
+           (ht : ptobs) : bool :=
   let sp := spec_port_kind ct o d z in
   mon_kind sp k && mon_kind sp hk &&
   (* op.port_type (only the DataflowOp classes have the method) *)
   match sp with
-  | Port (ValueKind t0) => no_method t || res_eqv ty_eqv t (Ret t0)
-  | Port _ | NoPort => raised t
+  | Port (ValueKind t0) => no_method t || reports t t0
+  | Port _ | NoPort => no_type t
   | Unspecified => true
   end &&
   (* Hugr.port_type: the type of a value port, no type otherwise; on value INPUT ports "no type" is
-     tolerated (the property only speaks about value outputs) *)
+     tolerated (the property only speaks about value outputs), a wrong type is not *)
   match sp with
   | Port (ValueKind t0) =>
       match d with
-      | Out => res_eqv (option_eqb ty_eqv) ht (Ret (Some t0))
-      | In => res_eqv (option_eqb ty_eqv) ht (Ret (Some t0)) || res_eqv (option_eqb ty_eqv) ht (Ret None)
+      | Out => reports ht t0
+      | In => reports ht t0 || no_type ht
       end
-  | Port _ | NoPort => match ht with Ret (Some _) => false | _ => true end
+  | Port _ | NoPort => no_type ht
   | Unspecified => true
   end &&
   (* the type reported for a value output port equals the payload of that port's kind *)
   match d, hk with
-  | Out, Ret (ValueKind t0) => res_eqv (option_eqb ty_eqv) ht (Ret (Some t0))
+  | Out, Ret (ValueKind t0) => reports ht t0
   | _, _ => true
   end.
 
-(* signatures and output count of the operation a node holds (histories; for Call, which has no
-   outer_signature(), only the output count) *)
+(* signatures and output count of the operation a node holds (for Call, which has no outer_signature(), the
+   method may be absent) *)
 Definition mon_sig3 (o : opT) (outer inner : result sigobs) (nout : result Z) : bool :=
   match spec_sig o with
-  | Some s => if is_call o then true else res_eqv (fun x y => rows_eqv (obs_rows x) y) outer (Ret s)
+  | Some s => (is_call o && no_method outer) || sig_eqv outer s
   | None => true
   end &&
   match spec_inner_sig o with
-  | Some s => res_eqv (fun x y => rows_eqv (obs_rows x) y) inner (Ret s)
+  | Some s => sig_eqv inner s
   | None => true
   end &&
   match spec_num_out o with
@@ -186,52 +243,47 @@ Fixpoint mon_hist (rl : list (sstep ty)) (l : list hev) : bool :=
   | HPort n d z k t hk ht :: r =>
       match cur_op rl n with
       | Some o => mon_port o d z k t hk ht
-      | None => raised k && raised t && raised hk && raised ht
+      | None => vacant_port k t hk ht
       end && mon_hist rl r
   | HSig n outer inner nout :: r =>
       match cur_op rl n with
       | Some o => mon_sig3 o outer inner nout
-      | None => raised outer && raised inner && raised nout
+      | None => vacant_sig outer inner nout
       end && mon_hist rl r
   end.
 
 Definition mon (c : case) : bool :=
   match c with
   | CHist l => mon_hist [] l
-  | CNew call sig inst targs obs =>
+  | CNew call sig inst targs inst_ok obs =>
       match obs with
       | Raise _ => true
-      | Ret (s, i, n) =>
-          (* the operation keeps the function's signature; a monomorphic function is its own instance *)
+      | Ret (s, i, _) =>
+          (* the operation keeps the function's signature; a monomorphic function is its own instance; the
+             instantiation handed over (an instance of the signature) is the one exposed *)
           ty_eqv (pty s) (pty sig) &&
-          match p_params sig, inst with
-          | [], _ => functy_eqv i (p_body sig) && Nat.eqb n 0
-          | _ :: _, Some i0 => functy_eqv i i0 && Nat.eqb n (length (p_params sig))
-          | _ :: _, None => false
-          end
+          (negb inst_ok ||
+           match p_params sig, inst with
+           | [], _ => functy_eqv i (p_body sig)
+           | _ :: _, Some i0 => functy_eqv i i0
+           | _ :: _, None => true
+           end)
       end
   | CSig (Raise _) _ _ _ _ _ | CPort (Raise _) _ _ _ _ _ _ | CNth (Raise _) _ _ _ => true
   | CSig (Ret o) outer inner nout fpo inst =>
+      mon_sig3 o outer inner nout &&
       match spec_sig o with
       | Some s =>
-          (if is_call o then match inst with Some i => rows_eqv (obs_rows i) s | None => false end
-           else res_eqv (fun x y => rows_eqv (obs_rows x) y) outer (Ret s)) &&
-          (* Call: the function port comes right after the value inputs *)
-          (if is_call o then res_eqv Z.eqb fpo (Ret (zlen (fst s))) else true) &&
-          (* LoadFunction exposes the instantiation too *)
+          (* Call / LoadFunction expose the instantiated signature (public attribute [instantiation]) *)
+          (if is_call o then match inst with Some i => rows_eqv (obs_rows i) s | None => false end else true) &&
+          (* Call: the function port comes right after the value inputs (private helper; the public face of
+             this clause is port_kind at that offset, judged by the port cases) *)
+          (if is_call o then no_method fpo || res_eqv Z.eqb fpo (Ret (zlen (fst s))) else true) &&
           match o, inst with
           | OLoadFunc _ _ _, Some i => match snd s with [t] => ty_eqv t (TFunc (fst (fst i)) (snd (fst i)) (snd i)) | _ => false end
           | OLoadFunc _ _ _, None => false
           | _, _ => true
           end
-      | None => true
-      end &&
-      match spec_inner_sig o with
-      | Some s => res_eqv (fun x y => rows_eqv (obs_rows x) y) inner (Ret s)
-      | None => true
-      end &&
-      match spec_num_out o with
-      | Some n => res_eqv Z.eqb nout (Ret (Z.of_nat n))
       | None => true
       end
   | CPort (Ret o) d z k t hk ht => mon_port o d z k t hk ht
